@@ -921,6 +921,31 @@ fn stream_delete(data: &mut StreamData, stream: &mut Stream, ids: &[StreamId]) -
 //@@ body
 //@@ end
 
+// the locked wrappers the engine calls for XRANGE / XREVRANGE, XREAD and XLEN: they hand bounds, count and direction through unchanged
+//@@ unit stream_range fn src/storage/stream.rs Stream::range
+//@@   params drop "&self" add "data: &StreamData"
+//@@   rewrite RT "let data = self.data.lock().unwrap();" ""
+fn stream_range(data: &StreamData, start: &StreamId, end: &StreamId, count: Option<usize>, reverse: bool) -> (r: StreamRangeResult)
+    requires sorted_ids(data.entries@),
+    ensures exists|lo: int, hi1: int| #[trigger] range_is(data.entries@, *start, *end, maxc_of(count, data.entries@.len()), reverse, r.entries@, lo, hi1),
+//@@ body
+//@@ end
+//@@ unit stream_range_after fn src/storage/stream.rs Stream::range_after
+//@@   params drop "&self" add "data: &StreamData"
+//@@   rewrite RT "let data = self.data.lock().unwrap();" ""
+fn stream_range_after(data: &StreamData, after_id: &StreamId, count: Option<usize>) -> (r: StreamRangeResult)
+    requires sorted_ids(data.entries@),
+    ensures exists|s: int| #[trigger] range_after_is(data.entries@, *after_id, maxc_of(count, data.entries@.len()), r.entries@, s),
+//@@ body
+//@@ end
+//@@ unit stream_len fn src/storage/stream.rs Stream::len
+//@@   params drop "&self" add "stream: &Stream"
+//@@   rewrite RT "self.length.load(Ordering::Relaxed)" "stream.length"
+fn stream_len(stream: &Stream) -> (r: usize)
+    ensures r == stream.length,
+//@@ body
+//@@ end
+
 //@@ unit stream_trim_by_min_id fn src/storage/stream.rs Stream::trim_by_min_id
 //@@   params drop "&self" add "data: &mut StreamData" add "stream: &mut Stream"
 //@@   rewrite RT "let mut data = self.data.lock().unwrap();" ""
